@@ -47,6 +47,7 @@ for pid in ids:
     if pid in registry.CHECKS and pid in registry.READY:
         continue
     na.append({"property_id": pid, "reason": registry.NOT_APPLICABLE.get(pid, "designed (see DESIGN.md section 4), check not built yet")})
+registry.ENGINES[0]["serves_properties"] = [c["property_id"] for c in checks]
 m = {
     "version": 1,
     "setup_cmd": "mkdir -p .work evidence replays && /venv/bin/python -c 'import sys; sys.path.insert(0,\"/verif\"); import engine.purepy as p; p.install(); import sqlalchemy' && tlc -h >/dev/null 2>&1; true",
